@@ -82,7 +82,14 @@ impl<'a, 'b> MCTPSMBusPacket<'a, 'b> {
     ///
     /// Currently this just sets the total byte count.
     fn finalise(&mut self) {
-        self.smbus_header.set_byte_count(self.len() as u8 - 4);
+        // The byte count can't be represented if the packet is too large,
+        // in that case `fits_byte_count()` returns false
+        self.smbus_header.set_byte_count((self.len() - 4) as u8);
+    }
+
+    /// Does the length of the packet fit in the one byte SMBus byte count?
+    pub fn fits_byte_count(&self) -> bool {
+        self.len() - 4 <= u8::MAX as usize
     }
 }
 
